@@ -104,26 +104,26 @@ def keysOf (ops : List Op) : List (Conn × Pid) :=
     | .write c b => b.pid.map fun p => (c, p)
     | _ => none).eraseDups
 
-def runOps (fixed : Bool) (T : Topo) (known : List CharId) (keys : List (Conn × Pid)) :
+def runOps (fixed nu : Bool) (T : Topo) (known : List CharId) (keys : List (Conn × Pid)) :
     State → List Op → List Json → List Json
   | _, [], acc => acc.reverse
   | s, op :: rest, acc =>
     match op with
     | .prepare c ttl pid =>
       let r := prepare s c ttl pid
-      runOps fixed T known keys r.1 rest
+      runOps fixed nu T known keys r.1 rest
         (Json.mkObj [("status", Json.num r.2), ("http", Json.num (httpOfPrepare r.2)), ("prep", jprep keys r.1)] :: acc)
-    | .advance dt => runOps fixed T known keys (step fixed T s (.advance dt)) rest (Json.mkObj [] :: acc)
+    | .advance dt => runOps fixed nu T known keys (step fixed nu T s (.advance dt)) rest (Json.mkObj [] :: acc)
     | .lose c =>
       let s' := lose s c
-      runOps fixed T known keys s' rest (Json.mkObj [("prep", jprep keys s')] :: acc)
+      runOps fixed nu T known keys s' rest (Json.mkObj [("prep", jprep keys s')] :: acc)
     | .write c b =>
-      let r := write fixed T s c b
+      let r := write fixed nu T s c b
       let o := r.2
       let body := match o.body with
         | none => Json.null
         | some l => Json.arr (l.map jres).toArray
-      runOps fixed T known keys r.1 rest
+      runOps fixed nu T known keys r.1 rest
         (Json.mkObj [("http", Json.num (httpOfWrite o)), ("body", body),
                      ("log", Json.arr (o.log.map jev).toArray),
                      ("vals", Json.arr (known.map fun c => Json.arr #[Json.num c.aid, Json.num c.iid, Json.str (r.1.vals c)]).toArray),
@@ -132,6 +132,7 @@ def runOps (fixed : Bool) (T : Topo) (known : List CharId) (keys : List (Conn ×
 def handle (j : Json) : R Json := do
   let (T, known) ← topoOf (← getObj j "topo")
   let fixed := match j.getObjValAs? Bool "fixed" with | .ok b => b | .error _ => true
+  let nu := match j.getObjValAs? Bool "nu" with | .ok b => b | .error _ => true
   let init ← (← getArr j "init").toList.mapM fun c =>
     match c with
     | .arr #[a, i, .str v] => do pure ((⟨← asNat a, ← asNat i⟩ : CharId), v)
@@ -141,6 +142,6 @@ def handle (j : Json) : R Json := do
     now := ← getNat j "now"
     prep := fun _ _ => none
     vals := fun c => ((init.find? (fun x => x.1 = c)).map (·.2)).getD "?" }
-  pure (Json.mkObj [("ops", Json.arr (runOps fixed T known (keysOf ops) s0 ops []).toArray)])
+  pure (Json.mkObj [("ops", Json.arr (runOps fixed nu T known (keysOf ops) s0 ops []).toArray)])
 
 end Hap.Drv.Writes
